@@ -196,15 +196,29 @@ Definition r_frame_ok (T : list node) (n : node) : bool :=
 Definition r_frame_high (T : list node) (n : node) : N :=
   frame_high node nd_cr nd_fr nd_spf nd_hassp (fc_n ws q) ws q T n.
 
+(* input validation (the facts of property C13 the rules rely on): seq >= 1, and for seq > 1 the
+   first parent is the self-parent: same creator, seq - 1 *)
+Definition ev_wf_b (T : list node) (e : fev) : bool :=
+  (1 <=? eseq (fe e)) &&
+  (if 1 <? eseq (fe e) then
+     match self_parent (fe e) with
+     | Some sp => match nlookup sp T with
+                  | Some n => Nat.eqb (nd_cr n) (ecr (fe e)) && (nd_seq n + 1 =? eseq (fe e))
+                  | None => false end
+     | None => false end
+   else true).
+
 (* events are taken in the given parents-first order; an event enters the DAG iff its parents are
    in and its claimed frame is allowed w.r.t. the roots known before it.
-   result code: 0 accepted, 1 wrong frame, 2 unknown parent / duplicate *)
+   result code: 0 accepted, 1 wrong frame, 2 unknown parent / duplicate / unknown creator,
+   3 malformed (not a valid event in the sense of C13; outside the property) *)
 Definition add_event (T : list node) (e : fev) : list node * (N * N) :=
   let n := mk_node nv T e in
   if existsb (fun p => match nlookup p T with None => true | Some _ => false end) (epar (fe e))
      || (match nlookup (eid (fe e)) T with Some _ => true | None => false end)
      || negb (Nat.ltb (ecr (fe e)) nv)
   then (T, (2, 0))
+  else if negb (ev_wf_b T e) then (T, (3, 0))
   else if r_frame_ok T n then (n :: T, (0, r_frame_high T n)) else (T, (1, r_frame_high T n)).
 Fixpoint add_events (T : list node) (D : list fev) : list node * list (N * N) :=
   match D with
